@@ -474,10 +474,10 @@ class TBRMatchedMarkets:
       # would not be defined).
       return False
 
-    if self.data.geo_index is None:
-      # The geo indices refer to the geos within constraints; make sure that
-      # this index is in place also when no other method has been called yet.
-      _ = self.geo_assignments
+    # The geo indices refer to the geos within the constraints of this object;
+    # like the other methods, make sure that this index is the one in place in
+    # the data object (which may be new, or shared with other objects).
+    geo_assignments = self.geo_assignments
 
     if self.parameters.volume_ratio_tolerance is not None:
       volume_ratio = (
@@ -498,7 +498,7 @@ class TBRMatchedMarkets:
     if self.parameters.treatment_share_range is not None:
       treatment_response_share = self.data.aggregate_geo_share(
           treatment_geos) / self.data.aggregate_geo_share(
-              self.geo_assignments.all)
+              geo_assignments.all)
       if self._constraint_not_satisfied(
           treatment_response_share, self.parameters.treatment_share_range[0],
           self.parameters.treatment_share_range[1]):
